@@ -1290,4 +1290,104 @@ bool World::exec_foreign_op(const Step& s)
 
 void World::foreign_forget() { g_fstate.erase(this); }
 
+// C02, written side, table API: the blobs stored for a row that actor T wrote are
+// decoded by the independent codec and compared with the row model field by field.
+void World::audit_table_row(int64_t id, const v2::track_row& row, const std::string& op)
+{
+    if (!plan.cfg.on_disk || !v2)
+        return;
+    Payloads stored = read_payloads(*this, id);
+    if (!stored.found)
+        return;
+    if (!stored.err.empty())
+    {
+        report("C02", "C02|table-written|v2|frame", "row " + std::to_string(id) + " written through the table API: " + stored.err);
+        return;
+    }
+    Foreign f;
+    auto& td = row.track_data;
+    f.td.sample_rate = td.sample_rate;
+    f.td.samples = td.samples;
+    f.td.key = td.key;
+    f.td.loud_low = td.average_loudness_low;
+    f.td.loud_mid = td.average_loudness_mid;
+    f.td.loud_high = td.average_loudness_high;
+    f.td.extra = to_bytes(td.extra_data);
+    auto& ov = row.overview_waveform_data;
+    f.ov.n1 = f.ov.n2 = (int64_t)ov.waveform_points.size();
+    f.ov.samples_per_point = ov.samples_per_waveform_point;
+    for (auto& q : ov.waveform_points)
+        f.ov.pts.push_back({q.low_value, q.mid_value, q.high_value});
+    f.ov.max = {ov.maximum_point.low_value, ov.maximum_point.mid_value, ov.maximum_point.high_value};
+    f.ov.extra = to_bytes(ov.extra_data);
+    auto& bd = row.beat_data;
+    f.bd.sample_rate = bd.sample_rate;
+    f.bd.samples = bd.samples;
+    f.bd.is_set = bd.is_beatgrid_set;
+    auto grid = [](const std::vector<v2::beat_grid_marker_blob>& g) {
+        std::vector<ref::Marker> v;
+        for (auto& m : g)
+        {
+            ref::Marker x;
+            x.offset = m.sample_offset;
+            x.beat = m.beat_number;
+            x.beats_to_next = m.number_of_beats;
+            x.unknown = m.unknown_value_1;
+            v.push_back(x);
+        }
+        return v;
+    };
+    f.bd.def = grid(bd.default_beat_grid);
+    f.bd.adj = grid(bd.adjusted_beat_grid);
+    f.bd.extra = to_bytes(bd.extra_data);
+    auto& qc = row.quick_cues;
+    for (auto& c : qc.quick_cues)
+    {
+        ref::Cue x;
+        x.label = c.label;
+        x.offset = c.sample_offset;
+        x.a = c.color.a;
+        x.r = c.color.r;
+        x.g = c.color.g;
+        x.b = c.color.b;
+        f.qc.cues.push_back(x);
+    }
+    f.qc.adj_main = qc.adjusted_main_cue;
+    f.qc.def_main = qc.default_main_cue;
+    f.qc.is_adj = qc.is_main_cue_adjusted ? 1 : 0;
+    f.qc.extra = to_bytes(qc.extra_data);
+    for (auto& l : row.loops.loops)
+    {
+        ref::Loop x;
+        x.label = l.label;
+        x.start = l.start_sample_offset;
+        x.end = l.end_sample_offset;
+        x.start_set = l.is_start_set;
+        x.end_set = l.is_end_set;
+        x.a = l.color.a;
+        x.r = l.color.r;
+        x.g = l.color.g;
+        x.b = l.color.b;
+        f.lp.loops.push_back(x);
+    }
+    f.lp.extra = to_bytes(row.loops.extra_data);
+    Payloads expect;
+    expect.found = true;
+    expect.td = ref::enc_track2(f.td);
+    expect.ov = ref::enc_overview(f.ov);
+    expect.bd = ref::enc_beat(f.bd);
+    expect.qc = ref::enc_cues(f.qc);
+    expect.lp = ref::enc_loops(f.lp);
+    for (auto& d : diff_payloads(expect, stored))
+    {
+        std::string generic = d;
+        auto br = generic.find('[');
+        if (br != std::string::npos)
+            generic = generic.substr(0, br) + "[i]";
+        report("C02", "C02|table-written|v2|" + generic,
+               "row " + std::to_string(id) + " after " + op + ": the independent decoder reads " + d + " of the stored blob differently from the value written through the table API");
+    }
+    probes.hit("table_rows_audited");
+}
+
 }  // namespace djsim
